@@ -103,6 +103,24 @@ class CellEval:
             if isinstance(node.op, ast.Div):
                 return a * b.inverse()
             raise Undecided("operator %s" % type(node.op).__name__)
+        if isinstance(node, ast.Subscript) and isinstance(node.slice, ast.Constant) and isinstance(node.slice.value, int) \
+                and isinstance(node.value, (ast.Tuple, ast.List)) and 0 <= node.slice.value < len(node.value.elts):
+            return self.eval(node.value.elts[node.slice.value])
+        if isinstance(node, ast.Subscript) and isinstance(node.slice, ast.Constant) and isinstance(node.slice.value, int) \
+                and isinstance(node.value, ast.Call) and self._call_name(node.value) == "clip" and node.value.args \
+                and isinstance(node.value.args[0], (ast.Tuple, ast.List)) and 0 <= node.slice.value < len(node.value.args[0].elts):
+            # np.clip((a, b), lo, hi)[k] = clip(k-th element)
+            c = node.value
+            one = ast.Call(func=c.func, args=[c.args[0].elts[node.slice.value]] + list(c.args[1:]), keywords=c.keywords)
+            ast.copy_location(one, c)
+            return self.eval(one)
+        if isinstance(node, ast.Call) and self._call_name(node) == "clip" and not node.keywords:
+            args = self._star_args(node.args, 3)
+            if args is not None and len(args) == 3:
+                x, lo, hi = (self.eval(a) for a in args)
+                # clip(x, lo, hi) = min(max(x, lo), hi)
+                m = x if self.compare(">=", x, lo) else lo
+                return m if self.compare("<=", m, hi) else hi
         if isinstance(node, ast.Call):
             fn = node.func
             name = fn.id if isinstance(fn, ast.Name) else (fn.attr if isinstance(fn, ast.Attribute) else None)
@@ -130,6 +148,33 @@ class CellEval:
                     return r
             raise Undecided("call %s" % ast.unparse(node)[:60])
         raise Undecided("expression %s" % ast.unparse(node)[:60])
+
+    @staticmethod
+    def _call_name(c):
+        fn = c.func
+        return fn.id if isinstance(fn, ast.Name) else (fn.attr if isinstance(fn, ast.Attribute) else None)
+
+    def _star_args(self, args, want):
+        """Positional arguments with `*f(...)` expanded to f(...)[0], f(...)[1], ... so that there are `want` of them."""
+        stars = [a for a in args if isinstance(a, ast.Starred)]
+        if not stars:
+            return list(args)
+        if len(stars) != 1 or not isinstance(stars[0].value, ast.Call):
+            return None
+        n = want - (len(args) - 1)
+        if n < 0:
+            return None
+        out = []
+        for a in args:
+            if isinstance(a, ast.Starred):
+                for k in range(n):
+                    sub = ast.Subscript(value=a.value, slice=ast.Constant(value=k), ctx=ast.Load())
+                    ast.copy_location(sub, a.value)
+                    ast.copy_location(sub.slice, a.value)
+                    out.append(sub)
+            else:
+                out.append(a)
+        return out
 
     def test(self, node):
         """Truth value of a boolean expression in this cell."""
